@@ -77,5 +77,16 @@ def plan(tier, seed):
              for i, part in enumerate(split(regs, 16))]
     cl = [r for r in regs if ('int:' in r and 'short' not in r) or 'r10' in r][:40]
     units.append(Unit('C01-clang', 'clang', 'props/C01.h', cl, rc_cases=cases, enum_max=2 ** 19, chunk=10))
+    # every exponent distance for + - * (alignment shifts of every size), both orders of (wider, narrower) rep
+    ESI = 'cnl::elastic_scaled_integer'
+    pE = 'cnl::power<E>'
+    sweeps = [
+        ('Sw_s32_s32', 'c01::Arith<%s, cnl::scaled_integer<int, %s>>' % (sc(S32, 0), pE), 'sweep|int:0|int:E', -30, 30),
+        ('Sw_s64_s16', 'c01::Arith<%s, cnl::scaled_integer<short, %s>>' % (sc(S64, 0), pE), 'sweep|long:0|short:E', -62, 30),
+        ('Sw_u8_u64', 'c01::Arith<cnl::scaled_integer<unsigned char, %s>, %s>' % (pE, sc(U64, 0)), 'sweep|unsigned_char:E|unsigned_long:0', -63, 30),
+        ('Sw_e30_e30', 'c01::Arith<%s<30, cnl::power<0>>, %s<30, %s>>' % (ESI, ESI, pE), 'sweep|elastic30:0|elastic30:E', -64, 64),
+        ('Sw_e20u_e50', 'c01::Arith<%s<20, %s, unsigned>, %s<50, cnl::power<0>>>' % (ESI, pE, ESI), 'sweep|elastic20u:E|elastic50:0', -50, 50),
+    ]
+    units += sweep_units('C01', 'props/C01.h', sweeps, cases * 2, nunits=8, keep=(lambda i, r: i % 2 == 0) if quick else None)
     return dict(units=units, rule=RULE, assumptions=[
         'ranges of wrapper reps are taken from their std::numeric_limits (checked on their own by C05/C10)'])
